@@ -2,12 +2,10 @@
    Specification: Spec/Nondet.v  valid_order (decidable) and all_orders (enumeration).
    Model: Model/NdVisit.v  nd_visit, driven by a choice script (one number per random.randrange / random.shuffle).
 
-   C17_valid below is the general theorem for the traversal: every value, every limit, every script.
-   Still NOT proved in general (for every generated small value the check enumerates every outcome of the real code's
-   random choices, compares each with the model script by script and the set of container orders with all_orders):
-     C17_exhaustive : forall limit v o, valid_order ([], v) o = true -> nesting v <= limit ->
-                      exists script ns, nd_visit limit script ([], v) = Ok ns /\ (container order of ns) = (container order of o)
-   and the statement for whole queries (wildcard and filter selectors shuffle object members too). *)
+   C17_valid and C17_exhaustive below are the general theorems for the traversal: every value, every limit, every
+   script / every valid order.  Still NOT proved in general: the statement for whole queries (wildcard and filter
+   selectors shuffle object members too; decided by the correspondence: the nondeterministic result of generated
+   queries is a permutation of the deterministic one). *)
 From JP Require Import Base.Json Model.NdVisit Spec.Sem Spec.Nondet Proofs.NdSpec Proofs.NdSim.
 
 (* Whatever the random choices (one script number per random.randrange / random.shuffle call, any numbers, any length),
@@ -32,6 +30,48 @@ Theorem C17_frontier_sound : forall loc v o, wf_json v = true -> reach (queues_o
   valid_order (loc, v) (map fst ((loc, v) :: o)) = true.
 Proof. exact reach_valid. Qed.
 Print Assumptions C17_frontier_sound.
+
+(* Conversely the traversal is exhaustive: for every order o RFC 9535 allows (a permutation of the node and its
+   descendants that valid_order accepts) there is an outcome of the random choices - a script - on which the traversal
+   visits the containers in exactly the order o lists them.  Scalars are visited as soon as their generator reaches
+   them, which cannot change any result: nothing is selected from a scalar (C17_exhaustive_results).
+   Proofs/NdExh.v: a script is built from o - the index of the parent's generator for every random.randrange, the
+   factorial-base number of the wanted permutation for every random.shuffle (apply_perm_onto) - and the loop is shown to
+   follow it (build); valid_order supplies what that needs (parent_before, kids_conts, arun_of). *)
+From JP Require Import Proofs.EvalProofs Proofs.NdExh.
+From Coq Require Import Permutation Lia.
+Theorem C17_exhaustive : forall limit v o, wf_json v = true -> (1 <= limit)%nat -> (nesting v <= limit)%nat ->
+  Permutation o (descendants [] v) -> valid_order ([], v) (map fst o) = true ->
+  exists script ns, nd_visit limit script ([], v) = Ok ns /\ filter isc ns = filter isc o.
+Proof. exact nd_exhaustive. Qed.
+Print Assumptions C17_exhaustive.
+
+(* ... and therefore every nodelist a descendant segment may produce under RFC 9535 - the selectors applied to the
+   visited nodes in a valid order o - is produced on some outcome of the random choices *)
+From JP Require Import Model.Ast Proofs.FilterProofs.
+Theorem C17_exhaustive_results : forall cfg limit v o sroot ss, wf_json v = true -> (1 <= limit)%nat -> (nesting v <= limit)%nat ->
+  Permutation o (descendants [] v) -> valid_order ([], v) (map fst o) = true ->
+  exists script ns, nd_visit limit script ([], v) = Ok ns /\
+    flat_map (sels_sem cfg sroot ss) ns = flat_map (sels_sem cfg sroot ss) o.
+Proof.
+  intros cfg limit v o sroot ss Hw Hl Hn Hp Hv. destruct (nd_exhaustive limit v o Hw Hl Hn Hp Hv) as (script & ns & E & F).
+  exists script, ns. split; [exact E|].
+  rewrite <- (flat_map_filter_nil isc (sels_sem cfg sroot ss) ns) by (intros x Hx; apply sels_sem_scalar_any; exact Hx).
+  rewrite <- (flat_map_filter_nil isc (sels_sem cfg sroot ss) o) by (intros x Hx; apply sels_sem_scalar_any; exact Hx).
+  rewrite F. reflexivity.
+Qed.
+Print Assumptions C17_exhaustive_results.
+
+(* the hypotheses are satisfiable: the reported order of the defect report is such an o *)
+Example C17_exhaustive_nonvacuous :
+  exists o, Permutation o (descendants [] (JObj [([97%N], JObj [([120%N], JArr [JNum (NInt 1)]); ([121%N], JArr [JNum (NInt 2)])]); ([98%N], JArr [JNum (NInt 3)])])) /\
+            valid_order ([], JObj [([97%N], JObj [([120%N], JArr [JNum (NInt 1)]); ([121%N], JArr [JNum (NInt 2)])]); ([98%N], JArr [JNum (NInt 3)])]) (map fst o) = true /\
+            o <> descendants [] (JObj [([97%N], JObj [([120%N], JArr [JNum (NInt 1)]); ([121%N], JArr [JNum (NInt 2)])]); ([98%N], JArr [JNum (NInt 3)])]).
+Proof.
+  set (d := descendants [] (JObj [([97%N], JObj [([120%N], JArr [JNum (NInt 1)]); ([121%N], JArr [JNum (NInt 2)])]); ([98%N], JArr [JNum (NInt 3)])])).
+  (* root, a, b, x, x[0], y, y[0], b[0]: the permutation number 224 of random.shuffle's factorial-base reading *)
+  exists (apply_perm 8 224 d). split; [apply Permutation_sym; apply apply_perm_perm; vm_compute; lia|]. vm_compute. split; [reflexivity | discriminate].
+Qed.
 
 (* the document of the original defect report: {"a": {"x": [1], "y": [2]}, "b": [3]} *)
 Definition nm (c : N) : str := [c].
